@@ -391,7 +391,9 @@ class CookieJar(AbstractCookieJar):
                     cookie["max-age"] = ""
 
             elif expires := cookie["expires"]:
-                if expire_time := self._parse_date(expires):
+                # 0 is a valid timestamp: "Expires=Thu, 01 Jan 1970 00:00:00 GMT"
+                # is the conventional way to delete a cookie.
+                if (expire_time := self._parse_date(expires)) is not None:
                     self._expire_cookie(expire_time, domain, path, name)
                 else:
                     cookie["expires"] = ""
